@@ -228,12 +228,24 @@ fn structures() -> Vec<Structure> {
         Structure {
             name: "HMAT system locality",
             n_opts: 2,
-            variants: 4,
+            // every locality type x every minimum-transfer-size variant x every data type
+            variants: 4 * 12 * 6,
             make: |s, v, r| {
                 prog(
                     Kind::Hmat,
                     Ctor::None,
-                    vec![Op::Sllbi { loc: v as u8, data: r.below(6) as u8, mts: r.below(12) as u8, base_unit: r.u64b(), ni: 1, nt: 2, inits: vec![(0, 7)], targs: vec![(1, 9)], cells: vec![(0, 1, 5)], flags: s.to_vec() }],
+                    vec![Op::Sllbi {
+                        loc: (v % 4) as u8,
+                        data: ((v / 48) % 6) as u8,
+                        mts: ((v / 4) % 12) as u8,
+                        base_unit: r.u64b(),
+                        ni: 1,
+                        nt: 2,
+                        inits: vec![(0, 7)],
+                        targs: vec![(1, 9)],
+                        cells: vec![(0, 1, 5)],
+                        flags: s.to_vec(),
+                    }],
                 )
             },
         },
